@@ -289,6 +289,8 @@ def install_formatter(S: Seams, fmt):
             act = S.event("fmt_black", f"call{k}")
             if act == "fmt_raise" or k in always or fmt.get("always"):
                 raise RuntimeError("injected: black failed")
+            if act == "fmt_black_truncated":
+                return real_format_str(src, mode=mode)[: max(1, len(src) // 2)]
             return real_format_str(src, mode=mode)
 
         black.format_str = format_str
